@@ -1468,7 +1468,13 @@ class Compiler:
                         key_name = prop.key.value
                 if key_name is not None and prop.kind in ("get", "set"):
                     key_name = prop.kind + " " + key_name
+                before = len(self.functions)
                 self._compile_named_value(prop.value, key_name)
+                if (
+                    getattr(prop, "method", False) or prop.kind in ("get", "set")
+                ) and len(self.functions) > before:
+                    # Methods and accessors are not constructors
+                    self.functions[-1].is_method = True
             self._emit(OpCode.BUILD_OBJECT, len(node.properties))
 
         elif isinstance(node, UnaryExpression):
